@@ -36,12 +36,16 @@ Mirrored(o1, o2) ==
                          /\ (o1.iv.kind # "lower" => NegBits(o1.iv.lo, o2.iv.hi))
                          /\ (o1.iv.kind # "upper" => NegBits(o1.iv.hi, o2.iv.lo)))
 
+ZeroIn(d) == \E i \in DOMAIN d.rle : d.rle[i][1].n = 0
 \* ---------------------------------------------------------------- arithmetic mean (C01 / C06)
 ArithFailed(e, P) ==
     LET st == Moments(e.data)
         nu == st.n - 1 IN
     IF e.out.tag = "panic" THEN {P \o ".no_panic"}
     ELSE IF st.n < 2 THEN {c \in {P \o ".domain"} : ~(e.out.tag = "err" /\ e.out.variant = "TooFewSamples")}
+    \* every square overflows: the documented outcome is an error (non-finite statistics); an interval is judged below
+    ELSE IF ~OkIv(e) /\ "ovf" \in DOMAIN e
+    THEN {c \in {P \o ".domain"} : ~(e.out.tag = "err" /\ e.out.variant \in {"InvalidInputData", "FloatConversionError"})}
     ELSE IF ~OkIv(e) THEN {P \o ".domain"}
     ELSE IF ~CritKnown(nu) THEN {P \o ".generator_nu_not_in_table"}
     ELSE
@@ -61,6 +65,10 @@ ArithFailed(e, P) ==
 ArithClauses(e, P) ==
     LET st == Moments(e.data)  nu == st.n - 1 IN
     {P \o ".no_panic", P \o ".type." \o e.ty, P \o ".kind." \o e.conf.kind, P \o ".style." \o e.style}
+    \cup (IF "ovf" \in DOMAIN e THEN {P \o ".squares_overflow"} ELSE {})
+    \cup (IF "magnitude" \in DOMAIN e THEN {P \o ".magnitude." \o e.magnitude} ELSE {})
+    \cup (IF "beyond_f32_count" \in DOMAIN e THEN {P \o ".beyond_f32_count." \o e.style} ELSE {})
+    \cup (IF st.n >= 2 /\ OkIv(e) /\ ZeroIn(e.data) THEN {P \o ".zero_observation"} ELSE {})
     \cup (IF st.n >= 2 /\ OkIv(e) THEN
             {P \o ".level_echo", P \o ".shape", P \o ".sample_mean", P \o ".sample_variance", P \o ".sample_std_dev", P \o ".sample_count"}
             \cup (IF HasLoB(e) THEN {P \o ".bound_lo"} ELSE {}) \cup (IF HasHiB(e) THEN {P \o ".bound_hi"} ELSE {})
@@ -90,6 +98,34 @@ ExtremeFailed(e, P) ==
                   \/ (HasHiB(e) /\ ~okb(FDy(e.out.iv.hi), "hi"))})
 ExtremeClauses(e, P) == {P \o ".no_panic", P \o ".shape", P \o ".even_dof_closed_form"}
                         \cup {P \o (IF "offgrid" \in DOMAIN e THEN ".off_grid_level." ELSE ".extreme_level.") \o e.conf.kind}
+
+\* ---------------------------------------------------------------- counts beyond 32 bits (C06 / C01)
+\* The symmetric probe of 4 (-1, 1, -1, 1) merged with itself `doublings` times and delivered `extra` more times:
+\* n = 4 (2^p + x) observations, mean 0, V = n^2, so the implied critical value satisfies c^2 = b^2 (n - 1) exactly,
+\* and with n far beyond the switch it is the normal quantile.
+BigCountN(e) == DyAdd(Dy(BigOfInt(4), e.doublings), DyOfInt(4 * e.extra))
+\* the count is logged in hexadecimal (it does not fit TLC's integers): 4 (2^p + x) for p = 29 .. 31, x = 1, 2
+CountHex(e) == CASE e.doublings = 29 -> (IF e.extra = 1 THEN "80000004" ELSE "80000008")
+                 [] e.doublings = 30 -> (IF e.extra = 1 THEN "100000004" ELSE "100000008")
+                 [] e.doublings = 31 -> (IF e.extra = 1 THEN "200000004" ELSE "200000008")
+BigCountFailed(e, P) ==
+    LET nm1 == DySub(BigCountN(e), DyOfInt(1))
+        cm  == MagEnc(ZRow(OneKind(e.conf.kind), e.li))
+        sg  == CSign(e.conf.kind, e.li)
+        te  == IF e.ty = "f32" THEN -18 ELSE -38
+        okb(b, which) == LET c2 == DyMul(DySq(b), nm1) IN
+                         /\ DyLe(DyMul(DySq(cm[1]), DySub(DyOfInt(1), Dy(BigOfInt(1), te))), c2)
+                         /\ DyLe(c2, DyMul(DySq(cm[2]), DyAdd(DyOfInt(1), Dy(BigOfInt(1), te))))
+                         /\ (sg = 0 \/ DySign(b) = (IF which = "hi" THEN sg ELSE -sg)) IN
+    IF e.out.tag = "panic" THEN {P \o ".no_panic"}
+    ELSE IF ~OkIv(e) THEN {P \o ".domain"}
+    ELSE {c \in {P \o ".shape"} : ~ShapeOK(e)}
+         \cup (IF ~ShapeOK(e) THEN {} ELSE
+               {c \in {P \o ".count_beyond_32_bits"} :
+                  \/ (HasLoB(e) /\ ~okb(FDy(e.out.iv.lo), "lo"))
+                  \/ (HasHiB(e) /\ ~okb(FDy(e.out.iv.hi), "hi"))})
+         \cup {c \in {P \o ".sample_count"} : e.stats.count_hex # CountHex(e)}
+BigCountClauses(e, P) == {P \o ".no_panic", P \o ".shape", P \o ".count_beyond_32_bits", P \o ".sample_count", P \o ".type." \o e.ty}
 
 \* ---------------------------------------------------------------- paired / unpaired (C04)
 \* explicit aligned samples (every block has count 1): run-length sample of the differences
@@ -219,6 +255,7 @@ HarmFailed(e) ==
 PropOf(e) == IF PROP \in {"C06", "C09"} THEN PROP ELSE "C01"
 Failed1(e) ==
     IF "extreme" \in DOMAIN e THEN ExtremeFailed(e, PropOf(e)) ELSE
+    IF "doublings" \in DOMAIN e THEN BigCountFailed(e, PropOf(e)) ELSE
     CASE e.fl = "arith"    -> ArithFailed(e, PropOf(e))
       [] e.fl = "paired"   -> PairedFailed(e)
       [] e.fl = "unpaired" -> UnpairedFailed(e)
@@ -226,6 +263,7 @@ Failed1(e) ==
       [] e.fl = "harm"     -> HarmFailed(e)
 Clauses1(e) ==
     IF "extreme" \in DOMAIN e THEN ExtremeClauses(e, PropOf(e)) ELSE
+    IF "doublings" \in DOMAIN e THEN BigCountClauses(e, PropOf(e)) ELSE
     CASE e.fl = "arith"    -> ArithClauses(e, PropOf(e))
       [] e.fl = "paired"   -> {"C04.no_panic", "C04.paired." \o e.style}
                               \cup (IF Len(e.data.rle) # Len(e.datab.rle) THEN {"C04.different_sizes"}
